@@ -35,12 +35,14 @@ NEEDS = {
  "C14b": "the response that opens a region scanner also says more_results=false with more_results_in_region=true",
  "C17b": "a lookup that fails by timing out (ZooKeeper or meta accept the request but never answer)",
  "C18b": "outstanding count 1 -> 0 -> 1 with the new send's inFlightUp between the reader's unlock and its deadline clear; then the server goes silent",
+ "C10c": "a Delete with a whole-family entry visited before a family with qualifiers (the type byte is computed once and never reset)",
  "C18": "an unbatched request whose context is cancelled before the (late) response arrives, then an idle period longer than the read timeout",
 }
 CHECKS = {  # seed -> checks to try (own property first)
  "C01": ["C01"], "C02": ["C02"], "C03": ["C03"], "C04": ["C04", "C09"], "C05": ["C05", "C12"], "C06": ["C06"], "C07": ["C07"],
  "C08": ["C08"], "C09": ["C09", "C04"], "C10": ["C10", "C05"], "C11": ["C11", "C15"], "C12": ["C12", "C07"], "C13": ["C13"],
  "C14": ["C14"], "C15": ["C15", "C05"], "C19": ["C19", "C20"], "C20": ["C20", "C19"], "C02b": ["C02"], "C03b": ["C03"], "C09b": ["C09"], "C05b": ["C05"], "C06b": ["C06"], "C11b": ["C11"], "C12b": ["C12", "C02"], "C13b": ["C13"], "C14b": ["C14"], "C17b": ["C17", "C13"], "C18b": ["C18"], "C16": ["C16", "C01"], "C17": ["C17"], "C18": ["C18"],
+ "C10c": ["C10"],
 }
 names = sys.argv[1:] or sorted(os.listdir('/verif/seeded'))
 rows = []
